@@ -278,11 +278,20 @@ def gen_c13(rng: random.Random, tier: str) -> dict:
         script.append({'op': 'status', 't': 'unknown'})
         clients.append({'script': script})
     funcs = preempt.WORKER_FUNCS + preempt.SERVER_FUNCS
+    faults = []
+    if ncl > 1 and rng.random() < 0.12:
+        # one client process dies mid-conversation: the others must not
+        # notice
+        faults.append({'kind': 'crash',
+                       'victim': {'kind': 'client',
+                                  'index': rng.randrange(ncl)},
+                       'trigger': {'type': 'steps_after_first_op',
+                                   'n': rng.randrange(5, 700)}})
     return {
         'topo': topo,
         'clients': clients,
         'policy': swarm_policy(rng, topo, funcs, p_preempt=0.5),
-        'faults': [],
+        'faults': faults,
     }
 
 
